@@ -75,6 +75,14 @@ def depObs (donl : Bool) (p : Option Bytes) : C09.DepObs (Option Parsed) :=
     tail0 := isPartitionTail false (p.getD []), tail1 := isPartitionTail true (p.getD []),
     auxPanic := false, freshSame := true, twinSame := true }
 
+/-- the exported sub-parsers called directly: 0 single, 1 aggregation, 2 fragmentation, 3 PACI -/
+def subDecode (which : Nat) (donl : Bool) (p : Option Bytes) : Res Parsed :=
+  ((match which with
+    | 0 => parseSingle donl p
+    | 1 => parseAgg donl p
+    | 2 => parseFU donl p
+    | _ => parsePACI p).map Pkt.view).coarse
+
 def depHist (donl : Bool) (ps : List (Option Bytes)) : List (C09.DepObs (Option Parsed)) :=
   ps.map (depObs donl)
 
